@@ -19,6 +19,7 @@ type oMsg struct {
 	r      int
 	b      string // block id or "nil"
 	ok     bool
+	signer int // validator whose key really signed it (intact signature), -1 = nobody's
 }
 
 type oCfg struct {
@@ -117,15 +118,28 @@ func judgeCase(c core.Case, out []string) ([]core.Finding, caseStats) {
 	precommits := map[int][]pcRec{}
 	lockSeen := map[int]string{}
 
-	// power of distinct validators < n with an ok vote (kind, r, b) at positions < upto
+	// power of the distinct SIGNERS (validators < n) of votes (kind, r, b) at positions < upto: a vote
+	// counts for the validator whose key signed it, whatever slot or address it claims - once. A
+	// verifying vote (ok) is signed by its sender; a non-verifying one with an intact signature counts
+	// for its signer only if that signer is faulty (a correct validator's signature under another
+	// slot/address is a replay of a vote that is in the log anyway).
 	votePower := func(kind string, r int, b string, upto int) int64 {
 		seen := map[int]bool{}
 		var p int64
 		for k := 0; k < upto && k < len(log); k++ {
 			m := log[k]
-			if m.ok && m.kind == kind && m.r == r && m.b == b && m.sender < cfg.n && !seen[m.sender] {
-				seen[m.sender] = true
-				p += cfg.powers[m.sender]
+			if m.kind != kind || m.r != r || m.b != b {
+				continue
+			}
+			who := -1
+			if m.ok {
+				who = m.sender
+			} else if m.signer >= 0 && m.signer < cfg.n && cfg.faulty[m.signer] {
+				who = m.signer
+			}
+			if who >= 0 && who < cfg.n && !seen[who] {
+				seen[who] = true
+				p += cfg.powers[who]
 			}
 		}
 		return p
@@ -136,7 +150,7 @@ func judgeCase(c core.Case, out []string) ([]core.Finding, caseStats) {
 		var vs []string
 		for k := 0; k < upto && k < len(log); k++ {
 			m := log[k]
-			if m.ok && m.kind == "pv" && m.r == r && !seen[m.b] {
+			if m.kind == "pv" && m.r == r && !seen[m.b] {
 				seen[m.b] = true
 				vs = append(vs, m.b)
 			}
@@ -201,7 +215,19 @@ func judgeCase(c core.Case, out []string) ([]core.Finding, caseStats) {
 			if okSig && !(sender < cfg.n && cfg.faulty[sender]) {
 				add("net.forged-signature-accepted", fmt.Sprintf("a verifying message of correct validator %d entered the log from outside its node (op %d)", sender, i))
 			}
-			log = append(log, oMsg{sender, kind, r, args[1], okSig})
+			// who signed it: from the op line (key=, default the sender; ok=0 = broken signature)
+			signer := -1
+			if v, _ := kvGet(toks[1:], "ok"); v == "1" {
+				signer = sender
+				if ks, present := kvGet(toks[1:], "key"); present {
+					if x, okx := parseNat(ks); okx {
+						signer = x
+					} else {
+						signer = -1
+					}
+				}
+			}
+			log = append(log, oMsg{sender, kind, r, args[1], okSig, signer})
 			continue
 		}
 		if !strings.HasPrefix(o, "n") {
@@ -240,7 +266,7 @@ func judgeCase(c core.Case, out []string) ([]core.Finding, caseStats) {
 					add("net.log-position-mismatch", fmt.Sprintf("node %d reports %s at position %d but the log has %d entries (op %d)", node, e, pos, len(log), i))
 				}
 				k := len(log)
-				log = append(log, oMsg{node, kind, r, args[1], true})
+				log = append(log, oMsg{node, kind, r, args[1], true, node})
 				key := fmt.Sprintf("%d/%s/%d", node, kind, r)
 				if old, ok := signed[key]; ok && old != val {
 					add("net.correct-node-signs-two-"+kind+"-in-one-round",
@@ -391,7 +417,7 @@ func extra() map[string]interface{} {
 		}
 	}
 	m := map[string]interface{}{"max_round_reached": maxRnd, "power_sets_dropped_path_dependent": dropped, "generator_events": genStats, "node_panics_by_class": panicStats, "goroutines_at_end": runtime.NumGoroutine(), "leftover_temp_dirs": leftoverDirs()}
-	for _, c := range []string{"sched", "happy", "lock-partition", "unsafe", "late-polka", "corpus"} {
+	for _, c := range []string{"sched", "happy", "lock-partition", "unsafe", "late-polka", "locked-pol", "forged-slots", "claim-replay", "corpus"} {
 		m["decisions."+c] = stats["decisions."+c]
 		m["lock_events."+c] = stats["lock_events."+c]
 	}
